@@ -5,7 +5,7 @@ import ast
 
 from .. import cfg as cfgmod
 from ..ctx import C, JS, M, XM, Ctx, call_name, calls_in, local_names, walk_function
-from ..fold import ClassRef, QN, is_unknown
+from ..fold import ClassRef, FuncRef, QN, is_unknown
 from ..loader import AnalysisError, dotted, norm
 from ..mutation import (all_assignments, field_table, is_fresh_expr, mutation_sites, resolve_local, single_assignment)
 from ..report import Rule, RuleResult
@@ -621,6 +621,29 @@ def lexical_passthrough(ctx: Ctx, rule):
                          "PROV-XML/JSON text with <ex:code xsi:type=\"xsd:string\">  indented\\n</ex:code>: the loaded value is 'indented'; writing and loading again cannot give the original text's value")
     if not sites:
         raise AnalysisError("no dispatch through XSD_DATATYPE_PARSERS found in prov.model")
+    # (1b) a parser written in the repository is one exact conversion of its argument: every return is a constant, the argument
+    # itself, or ONE call applied to the unmodified argument - never a chain such as int(float(value)) that goes through another type
+    for k, v in sorted(table.items(), key=lambda kv: str(kv[0])):
+        pq = getattr(v, "qual", None)
+        if not isinstance(v, FuncRef) or pq not in ctx.p.functions:
+            continue
+        pf = ctx.fn(pq)
+        if not pf.params:
+            continue
+        for n in walk_function(pf.node):
+            if not isinstance(n, ast.Return) or n.value is None:
+                continue
+            e = resolve_local(pf.node, n.value)
+            branches = [e.body, e.orelse] if isinstance(e, ast.IfExp) else [e]
+            for b in branches:
+                b = resolve_local(pf.node, b)
+                okb = isinstance(b, ast.Constant) or (isinstance(b, ast.Name) and b.id in pf.params) or (
+                    isinstance(b, ast.Call) and len(b.args) >= 1 and _unmodified_param(pf, b.args[0]) and not any(isinstance(a, ast.Call) for a in b.args))
+                res.ob("parser %s for %s returns %s: one exact conversion of the argument: %s" % (pf.name, k.local if isinstance(k, QN) else k, norm(b)[:40], okb))
+                if not okb:
+                    res.fail(rule.id, "parser-goes-through-another-type::%s" % pf.name, ctx.loc(pq, n),
+                             "%s, the parser registered for %s, returns %s: the lexical form is converted through another type on the way" % (pf.name, k.local if isinstance(k, QN) else k, norm(b)[:50]),
+                             "Literal('9007199254740993', xsd:long) is stored as 9007199254740992 (int(float(..)) rounds through a double): a direct assignment and the JSON/XML reload store different ints")
     # (2) datetime coercers are siblings: on a string they return dateutil's parse of the unmodified string, the value itself, or None
     coercers = sorted(datetime_coercers_loose(ctx))
     if len(coercers) < 2:
